@@ -67,7 +67,14 @@ fn main() {
             println!("{}", scenario::call(i));
         }
         Some("contended") => {
-            let seed: u64 = arg(&args, "--seed").unwrap().parse().unwrap();
+            let mut seed: u64 = arg(&args, "--seed").unwrap().parse().unwrap();
+            if cfg!(miri) {
+                // every Miri seed is a fresh interpreter (fresh statics) with its own address layout:
+                // fold a stack address into the workload seed so that `-Zmiri-many-seeds` varies the
+                // workload together with the schedule (both are a function of the Miri seed)
+                let probe = 0u8;
+                seed ^= (&probe as *const u8 as u64) >> 3;
+            }
             rt::RNG.store(seed.wrapping_mul(0x2545F4914F6CDD1D) ^ 0x9E3779B97F4A7C15, std::sync::atomic::Ordering::Relaxed);
             let golden = load_golden(&arg(&args, "--golden").unwrap());
             let rounds: usize = arg(&args, "--rounds").map(|x| x.parse().unwrap()).unwrap_or(1);
